@@ -183,7 +183,7 @@ fn toks_strategy(max: usize) -> BoxedStrategy<Vec<Tok>> {
     .boxed()
 }
 
-fn case_strategy(tier: Tier) -> BoxedStrategy<Case> {
+pub fn case_strategy(tier: Tier) -> BoxedStrategy<Case> {
     let max = tier.pick(8, 10);
     (
         toks_strategy(max),
@@ -273,14 +273,18 @@ pub fn check(c: &Case, obs: &mut Obs) -> Result<(), String> {
         }
         return Ok(());
     }
-    match m::glob_parse(p) {
+    match match m::glob_classify(p) {
+        m::GlobKind::OutsideSubset => {
+            // a run of exactly two '*' outside a set: the statement leaves '**' open
+            obs.excluded = true;
+            return Ok(());
+        }
+        m::GlobKind::Malformed => None,
+        m::GlobKind::WellFormed(t) => Some(t),
+    } {
         None => {
-            // malformed by construction (unclosed '[' or a run of '*'): must be reported at compile
-            // time, unless it is '**' which the subset leaves open
-            if p.contains("**") && !p.contains("***") {
-                obs.excluded = true;
-                return Ok(());
-            }
+            // malformed (unclosed or empty set, three or more '*' in a row outside a set): must be
+            // reported at compile time
             if compiled.is_ok() {
                 return Err(format!("malformed glob {:?} was accepted by Pattern::new", p));
             }
@@ -351,10 +355,11 @@ pub fn property() -> Property {
             random_stream("dialect", "syntax of other glob dialects (POSIX classes, '^', backslash, ']' / '!' inside a set) against short names over the characters involved", dialect_strategy, |t| t.pick(20_000, 1_000_000), check),
             random_stream("malformed", "malformed globs must be rejected at compile time", malformed_strategy, |t| t.pick(200, 2_000), check),
             random_stream("realistic", "real pkgsrc glob / plain patterns (sample of tests/data/pkgdeps.txt) against real package names built on their literal prefix", real_strategy, |t| t.pick(60_000, 5_000_000), check),
+            crate::fuzz::replay_stream(),
         ],
         selfcheck: m::selfcheck,
         hang_is_violation: false,
         min_nontrivial_share: 0.2,
-        extra: None,
+        extra: Some(crate::fuzz::extra),
     }
 }
